@@ -118,6 +118,80 @@ theorem writeKey_hot_eq (s : MState) (k : Bytes) (now : Int) (mk : Option Val) (
   have e3 : m.value.isSome = true := by rw [hval]; rfl
   simp only [e1, e2, e3, if_true, Bool.false_eq_true, if_false]
 
+/-- `writeKey` with a nil constructor on a key that is not indexed -/
+theorem writeKey_absent (s : MState) (now : Int) (k : Bytes) (h : getMeta s k = none) :
+    writeKey s now k none = (s, false) := by
+  unfold writeKey; rw [h]
+
+/-- `writeKey` with a nil constructor on a record that is not ok or whose deadline has passed:
+    locked, access counter bumped, reported as missing -/
+theorem writeKey_dead (s : MState) (now : Int) (k : Bytes) (m : Meta) (hm : getMeta s k = some m)
+    (hd : m.isOk = false ∨ m.expired now = true) :
+    writeKey s now k none = (putMeta (lockW s k) k { m with count := m.count + 1 }, false) := by
+  unfold writeKey
+  rw [hm]
+  have e1 : Meta.isOk { m with count := m.count + 1 } = m.isOk := rfl
+  have e2 : Meta.expired { m with count := m.count + 1 } now = m.expired now := rfl
+  simp only [e1, e2]
+  cases hok : m.isOk with
+  | false => simp
+  | true =>
+    rcases hd with hd | hd
+    · rw [hok] at hd; cases hd
+    · simp [hd]
+
+/-- `writeKey` with a nil constructor never touches the record of another key (nothing is created,
+    unlinked or replaced; at most the looked-up record is locked, counted and loaded) -/
+theorem writeKey_none_other (s : MState) (now : Int) (k k' : Bytes) (hne : k ≠ k') :
+    getMeta (writeKey s now k none).1 k' = getMeta s k' := by
+  unfold writeKey
+  cases hg : getMeta s k with
+  | none => rfl
+  | some m0 =>
+    simp only
+    have base : getMeta (putMeta (lockW s k) k { m0 with count := m0.count + 1 }) k' = getMeta s k' := by
+      rw [putMeta_other _ _ _ _ hne, lockW_getMeta]
+    split
+    · split
+      · exact base
+      · split
+        · exact base
+        · split
+          · simp only; rw [putMeta_other _ _ _ _ hne]; exact base
+          · exact base
+    · exact base
+
+/-- ... nor the backend -/
+theorem writeKey_none_disk (s : MState) (now : Int) (k : Bytes) :
+    (writeKey s now k none).1.disk = s.disk := by
+  unfold writeKey
+  cases hg : getMeta s k with
+  | none => rfl
+  | some m0 =>
+    simp only
+    have base : (putMeta (lockW s k) k { m0 with count := m0.count + 1 }).disk = s.disk :=
+      lockW_disk s k
+    split
+    · split
+      · exact base
+      · split
+        · exact base
+        · split
+          · exact base
+          · exact base
+    · exact base
+
+/-- overwriting the (present) record of another key keeps what `k` holds -/
+theorem putMeta_holds_other (s : MState) (k k' : Bytes) (m : Meta) (v : Val) (h : Holds s k v)
+    (hne : k' ≠ k) (hp : (getMeta s k').isSome) : Holds (putMeta s k' m) k v := by
+  obtain ⟨hs, m0, hm0, hv⟩ := h
+  obtain ⟨e1, _⟩ := set_present k' m s.index hs hp
+  exact ⟨sorted_of_keys _ _ e1.symm hs, m0, by rw [putMeta_other _ _ _ _ hne]; exact hm0, hv⟩
+
+theorem lockW_holds (s : MState) (k k' : Bytes) (v : Val) (h : Holds s k v) : Holds (lockW s k') k v := by
+  obtain ⟨hs, m0, hm0, hv⟩ := h
+  exact ⟨by rw [lockW_index]; exact hs, m0, by rw [lockW_getMeta]; exact hm0, hv⟩
+
 theorem setVal_pebble (s : MState) (k : Bytes) (v : Val) : (Api.setVal s k v).pebble = s.pebble := by
   unfold Api.setVal
   split
@@ -303,21 +377,46 @@ theorem newKeyWith_hung (s : MState) (k : Bytes) (v : Val) :
   · rw [unpersist_hung]
   · rfl
 
-/-- `Api.rotate` once the source lookup and the pop have succeeded (the keys may coincide) -/
-theorem rotate_eq (left : Bool) (s s1 : MState) (now : Int) (src dst : Bytes) (l l' : LList)
-    (vs : List Bytes)
+/-- `Api.rotate` once the source lookup, the type check of the destination (`s2`, `dok`: the nil-
+    constructor lookup of `dst`) and the pop have succeeded (the keys may coincide) -/
+theorem rotate_eq (left : Bool) (s s1 s2 : MState) (dok : Bool) (now : Int) (src dst : Bytes)
+    (l l' : LList) (vs : List Bytes)
     (hw : writeKey s now src none = (s1, true)) (ha : Api.asList s1 src = some l)
+    (hw2 : writeKey s1 now dst none = (s2, dok))
+    (hchk : (dok && (Api.asList s2 dst).isNone) = false)
     (hp : (if left then DsList.lpop l 1 else DsList.rpop l 1) = (l', some vs)) :
     Api.rotate left s now src dst =
-      match Api.asList (writeKey (srcPhase s1 src l') now dst (some (.list DsList.empty))).1 dst with
-      | none => ((writeKey (srcPhase s1 src l') now dst (some (.list DsList.empty))).1, .panic)
+      match Api.asList (writeKey (srcPhase s2 src l') now dst (some (.list DsList.empty))).1 dst with
+      | none => ((writeKey (srcPhase s2 src l') now dst (some (.list DsList.empty))).1, .panic)
       | some d =>
-        (emit (signal (Api.setVal (writeKey (srcPhase s1 src l') now dst (some (.list DsList.empty))).1
+        (emit (signal (Api.setVal (writeKey (srcPhase s2 src l') now dst (some (.list DsList.empty))).1
             dst (.list (if left then DsList.rpush d vs else DsList.lpush d vs))) dst)
           (Api.opList (if left then 13 else 20) src [Bytes.toHex dst]), .bytes vs.head?) := by
   unfold Api.rotate
-  simp only [hw, ha, hp, Bool.not_true, Bool.false_eq_true, if_false]
+  simp only [hw, ha, hw2, hchk, hp, Bool.not_true, Bool.false_eq_true, if_false]
   rfl
+
+/-- `Api.rotate` when the type check passes and nothing can be popped: nil, only the two lookups
+    happened -/
+theorem rotate_nil (left : Bool) (s s1 s2 : MState) (dok : Bool) (now : Int) (src dst : Bytes)
+    (l l' : LList)
+    (hw : writeKey s now src none = (s1, true)) (ha : Api.asList s1 src = some l)
+    (hw2 : writeKey s1 now dst none = (s2, dok))
+    (hchk : (dok && (Api.asList s2 dst).isNone) = false)
+    (hp : (if left then DsList.lpop l 1 else DsList.rpop l 1) = (l', none)) :
+    Api.rotate left s now src dst = (s2, .bytes none) := by
+  unfold Api.rotate
+  simp only [hw, ha, hw2, hchk, hp, Bool.not_true, Bool.false_eq_true, if_false]
+
+/-- `Api.rotate` when the destination lookup reports a live record that is not a list: the command
+    fails right after the two lookups, before anything is popped -/
+theorem rotate_panic (left : Bool) (s s1 s2 : MState) (now : Int) (src dst : Bytes) (l : LList)
+    (hw : writeKey s now src none = (s1, true)) (ha : Api.asList s1 src = some l)
+    (hw2 : writeKey s1 now dst none = (s2, true)) (hn : Api.asList s2 dst = none) :
+    Api.rotate left s now src dst = (s2, .panic) := by
+  unfold Api.rotate
+  simp only [hw, ha, hw2, hn, Bool.not_true, Bool.false_eq_true, if_false, Option.isNone_none,
+    Bool.and_self, if_true]
 
 /-- destination of a rotation from `src`: either not indexed at all (the list is then created, `d` is
     the empty list) or indexed, ok, unexpired, hot and holding the well-formed list `d`; in both
@@ -357,6 +456,30 @@ theorem api_rotate (left : Bool) (s : MState) (src dst : Bytes) (l d : LList) (n
     rw [← hs1, putMeta_other _ _ _ _ hne, lockW_getMeta]
   have hp1 : s1.pebble = s.pebble := by rw [← hs1]; exact lockW_pebble s src
   have hn1 : s1.nextId = s.nextId := by rw [← hs1]; exact lockW_nextId s src
+  -- the type check of the destination: absent (nothing happens) or a hot list (locked, counted)
+  obtain ⟨s2, dok, hw2, hchk, hm2, hh2, hp2, hn2, hdst2⟩ : ∃ s2 dok,
+      writeKey s1 now dst none = (s2, dok) ∧ (dok && (Api.asList s2 dst).isNone) = false ∧
+      getMeta s2 src = some { msrc with count := msrc.count + 1 } ∧ Holds s2 src (.list l) ∧
+      s2.pebble = s.pebble ∧ s2.nextId = s.nextId ∧
+      ((getMeta s2 dst = none ∧ d = DsList.empty ∧ (s.pebble = true ∨ msrc.oid ≠ s.nextId + 1)) ∨
+       (d.WF ∧ ∃ md, getMeta s2 dst = some md ∧ md.isOk = true ∧ md.expired now = false ∧
+          md.value = some (.list d) ∧
+          (s.pebble = true ∨ md.oid ≠ msrc.oid ∨ (md.oid = 0 ∧ msrc.oid = 0)))) := by
+    rcases hdst with ⟨hnone, hde, hfresh⟩ | ⟨hdwf, md, hmd, hdok, hdexp, hdval, hna⟩
+    · have hnone1 : getMeta s1 dst = none := by rw [hd1]; exact hnone
+      exact ⟨s1, false, writeKey_absent s1 now dst hnone1, rfl, hm1, hh1, hp1, hn1,
+        Or.inl ⟨hnone1, hde, hfresh⟩⟩
+    · have hmd1 : getMeta s1 dst = some md := by rw [hd1]; exact hmd
+      refine ⟨_, true, writeKey_hot_eq s1 dst now none md (.list d) hmd1 hdok hdexp hdval, ?_, ?_, ?_,
+        ?_, ?_, Or.inr ⟨hdwf, _, putMeta_self _ _ _, hdok, hdexp, hdval, hna⟩⟩
+      · simp [Api.asList, valOf, putMeta_self, hdval]
+      · rw [putMeta_other _ _ _ _ (Ne.symm hne), lockW_getMeta]; exact hm1
+      · apply putMeta_holds_other _ _ _ _ _ (lockW_holds s1 src dst _ hh1) (Ne.symm hne)
+        rw [lockW_getMeta, hmd1]; rfl
+      · show (lockW s1 dst).pebble = s.pebble
+        rw [lockW_pebble]; exact hp1
+      · show (lockW s1 dst).nextId = s.nextId
+        rw [lockW_nextId]; exact hn1
   -- the pop
   obtain ⟨l', hpop, hitems', hwf'⟩ : ∃ l', (if left then DsList.lpop l 1 else DsList.rpop l 1) = (l', some [x]) ∧
       l'.items = rest ∧ l'.WF := by
@@ -370,30 +493,30 @@ theorem api_rotate (left : Bool) (s : MState) (src dst : Bytes) (l d : LList) (n
       obtain ⟨e1, e2, _⟩ := h3 x rest hl
       exact ⟨(DsList.lpop l 1).1, by rw [← e2], e1, lpop_wf l hwf 1⟩
   have hz : DsList.llen l' = 0 ↔ rest = [] := by rw [llen_zero_iff l' hwf', hitems']
-  rw [rotate_eq left s s1 now src dst l l' [x] hw (asList_holds s1 src l hh1) hpop]
+  rw [rotate_eq left s s1 s2 dok now src dst l l' [x] hw (asList_holds s1 src l hh1) hw2 hchk hpop]
   -- state after the source phase
-  have hp4 : (srcPhase s1 src l').pebble = s.pebble := by rw [srcPhase_pebble, hp1]
-  have hn4 : (srcPhase s1 src l').nextId = s.nextId := by rw [srcPhase_nextId, hn1]
-  have hsrc4 : (rest = [] → getMeta (srcPhase s1 src l') src = none) ∧
-      (rest ≠ [] → ∃ m4, getMeta (srcPhase s1 src l') src = some m4 ∧
+  have hp4 : (srcPhase s2 src l').pebble = s.pebble := by rw [srcPhase_pebble, hp2]
+  have hn4 : (srcPhase s2 src l').nextId = s.nextId := by rw [srcPhase_nextId, hn2]
+  have hsrc4 : (rest = [] → getMeta (srcPhase s2 src l') src = none) ∧
+      (rest ≠ [] → ∃ m4, getMeta (srcPhase s2 src l') src = some m4 ∧
         m4.value = some (.list l') ∧ m4.oid = msrc.oid) :=
-    ⟨fun e => srcPhase_empty s1 src l' _ hh1 (hz.mpr e),
-     fun e => srcPhase_nonempty s1 src l' { msrc with count := msrc.count + 1 } hm1 (fun z => e (hz.mp z))⟩
+    ⟨fun e => srcPhase_empty s2 src l' _ hh2 (hz.mpr e),
+     fun e => srcPhase_nonempty s2 src l' { msrc with count := msrc.count + 1 } hm2 (fun z => e (hz.mp z))⟩
   -- destination lookup: in both cases the record is now hot with value `d`
   obtain ⟨s5, hs5, m5, hm5, hv5, hsrc5, hna5⟩ : ∃ s5,
-      (writeKey (srcPhase s1 src l') now dst (some (.list DsList.empty))).1 = s5 ∧
+      (writeKey (srcPhase s2 src l') now dst (some (.list DsList.empty))).1 = s5 ∧
       ∃ m5, getMeta s5 dst = some m5 ∧ m5.value = some (.list d) ∧
-        getMeta s5 src = getMeta (srcPhase s1 src l') src ∧
+        getMeta s5 src = getMeta (srcPhase s2 src l') src ∧
         (s5.pebble = true ∨ m5.oid = 0 ∨ ∀ m', getMeta s5 src = some m' → m'.oid ≠ m5.oid) := by
-    rcases hdst with ⟨hnone, hde, hfresh⟩ | ⟨_, md, hmd, hdok, hdexp, hdval, hna⟩
-    · have hd4 : getMeta (srcPhase s1 src l') dst = none := by
-        rw [srcPhase_other s1 src dst l' _ hm1 hne (Or.inr (Or.inr (by
-          intro m' hm'; rw [hd1, hnone] at hm'; cases hm'))), hd1, hnone]
+    rcases hdst2 with ⟨hnone, hde, hfresh⟩ | ⟨_, md, hmd, hdok, hdexp, hdval, hna⟩
+    · have hd4 : getMeta (srcPhase s2 src l') dst = none := by
+        rw [srcPhase_other s2 src dst l' _ hm2 hne (Or.inr (Or.inr (by
+          intro m' hm'; rw [hnone] at hm'; cases hm'))), hnone]
       refine ⟨_, rfl, ?_⟩
       unfold writeKey
       rw [hd4]
       simp only
-      obtain ⟨m, e1, e2, e3⟩ := newKeyWith_self (srcPhase s1 src l') dst (.list DsList.empty)
+      obtain ⟨m, e1, e2, e3⟩ := newKeyWith_self (srcPhase s2 src l') dst (.list DsList.empty)
       refine ⟨m, e1, by rw [e2, hde], newKeyWith_other _ _ _ _ (Ne.symm hne), ?_⟩
       rw [newKeyWith_pebble, hp4, newKeyWith_other _ _ _ _ (Ne.symm hne), e3, hn4]
       rcases hfresh with hf | hf
@@ -404,9 +527,9 @@ theorem api_rotate (left : Bool) (s : MState) (src dst : Bytes) (l d : LList) (n
         · rw [hsrc4.1 hr] at hm'; cases hm'
         · obtain ⟨m4, g1, _, g3⟩ := hsrc4.2 hr
           rw [g1] at hm'; cases hm'; rw [g3]; exact hf
-    · have hd4 : getMeta (srcPhase s1 src l') dst = some md := by
-        rw [srcPhase_other s1 src dst l' _ hm1 hne ?_, hd1, hmd]
-        rw [hp1, hd1, hmd]
+    · have hd4 : getMeta (srcPhase s2 src l') dst = some md := by
+        rw [srcPhase_other s2 src dst l' _ hm2 hne ?_, hmd]
+        rw [hp2, hmd]
         rcases hna with h | h | h
         · exact Or.inl h
         · exact Or.inr (Or.inr (by intro m' hm'; cases hm'; exact h))
@@ -415,7 +538,7 @@ theorem api_rotate (left : Bool) (s : MState) (src dst : Bytes) (l d : LList) (n
       rw [writeKey_hot_eq _ dst now _ md (.list d) hd4 hdok hdexp hdval]
       refine ⟨_, putMeta_self _ _ _, hdval, ?_, ?_⟩
       · rw [putMeta_other _ _ _ _ (Ne.symm hne), lockW_getMeta]
-      · show (lockW (srcPhase s1 src l') dst).pebble = true ∨ md.oid = 0 ∨ _
+      · show (lockW (srcPhase s2 src l') dst).pebble = true ∨ md.oid = 0 ∨ _
         rw [lockW_pebble, hp4, putMeta_other _ _ _ _ (Ne.symm hne), lockW_getMeta]
         rcases hna with h | h | h
         · exact Or.inl h
@@ -435,7 +558,7 @@ theorem api_rotate (left : Bool) (s : MState) (src dst : Bytes) (l d : LList) (n
     (Api.opList (if left then 13 else 20) src [Bytes.toHex dst]) m5 hm5
   have hfin := t2 src (Ne.symm hne) hna5
   have hdwf : d.WF := by
-    rcases hdst with ⟨_, hde, _⟩ | ⟨h, _⟩
+    rcases hdst2 with ⟨_, hde, _⟩ | ⟨h, _⟩
     · rw [hde]; exact empty_wf
     · exact h
   refine ⟨rfl, ?_, ?_, ?_⟩
@@ -566,6 +689,27 @@ theorem api_rotate_same (left : Bool) (s : MState) (k : Bytes) (l : LList) (now 
     · rw [lockW_index]; exact hsorted
     · rw [lockW_getMeta, hms]; rfl
     · exact hval
+  -- the type check of the destination = a second lookup of the same record: the write lock is
+  -- reused, the access counter is bumped once more
+  have hw2 := writeKey_hot_eq s1 k now none { msrc with count := msrc.count + 1 } (.list l) hm1 hok
+    hexp hval
+  have hlk2 : s.held = [] →
+      (putMeta (lockW s1 k) k { msrc with count := msrc.count + 1 + 1 }).held = [(k, true)] ∧
+      (putMeta (lockW s1 k) k { msrc with count := msrc.count + 1 + 1 }).hung = s.hung := by
+    intro hh
+    show (lockW s1 k).held = _ ∧ (lockW s1 k).hung = _
+    rw [lockW_reuse s1 k (by rw [(hlk hh).1]; simp)]
+    exact hlk hh
+  have hh2 : Holds (putMeta (lockW s1 k) k { msrc with count := msrc.count + 1 + 1 }) k (.list l) := by
+    apply putMeta_holds
+    · rw [lockW_index]; exact hh1.1
+    · rw [lockW_getMeta, hm1]; rfl
+    · exact hval
+  generalize hs2 : putMeta (lockW s1 k) k { msrc with count := msrc.count + 1 + 1 } = s2 at hw2 hlk2 hh2
+  have hm2 : getMeta s2 k = some { msrc with count := msrc.count + 1 + 1 } := by
+    rw [← hs2]; exact putMeta_self _ _ _
+  have hchk : (true && (Api.asList s2 k).isNone) = false := by
+    rw [asList_holds s2 k l hh2]; rfl
   -- the pop
   obtain ⟨l', hpop, hitems', hwf'⟩ : ∃ l', (if left then DsList.lpop l 1 else DsList.rpop l 1) = (l', some [x]) ∧
       l'.items = rest ∧ l'.WF := by
@@ -579,36 +723,36 @@ theorem api_rotate_same (left : Bool) (s : MState) (k : Bytes) (l : LList) (now 
       obtain ⟨e1, e2, _⟩ := h3 x rest hl
       exact ⟨(DsList.lpop l 1).1, by rw [← e2], e1, lpop_wf l hwf 1⟩
   have hz : DsList.llen l' = 0 ↔ rest = [] := by rw [llen_zero_iff l' hwf', hitems']
-  rw [rotate_eq left s s1 now k k l l' [x] hw (asList_holds s1 k l hh1) hpop]
+  rw [rotate_eq left s s1 s2 true now k k l l' [x] hw (asList_holds s1 k l hh1) hw2 hchk hpop]
   -- second lookup of the same key: the record is hot with a list `d` whose elements are `rest`
   obtain ⟨s5, hs5, d, hdwf, hditems, m5, hm5, hv5, hh5⟩ : ∃ s5,
-      (writeKey (srcPhase s1 k l') now k (some (.list DsList.empty))).1 = s5 ∧
+      (writeKey (srcPhase s2 k l') now k (some (.list DsList.empty))).1 = s5 ∧
       ∃ d : LList, d.WF ∧ d.items = rest ∧
       ∃ m5, getMeta s5 k = some m5 ∧ m5.value = some (.list d) ∧
         (s.held = [] → s5.hung = s.hung) := by
     by_cases hr : rest = []
     · -- the key was unlinked: it is created again
-      have hd4 : getMeta (srcPhase s1 k l') k = none := srcPhase_empty s1 k l' _ hh1 (hz.mpr hr)
+      have hd4 : getMeta (srcPhase s2 k l') k = none := srcPhase_empty s2 k l' _ hh2 (hz.mpr hr)
       refine ⟨_, rfl, DsList.empty, empty_wf, by rw [hr]; rfl, ?_⟩
       unfold writeKey
       rw [hd4]
       simp only
-      obtain ⟨m, e1, e2, _⟩ := newKeyWith_self (srcPhase s1 k l') k (.list DsList.empty)
+      obtain ⟨m, e1, e2, _⟩ := newKeyWith_self (srcPhase s2 k l') k (.list DsList.empty)
       refine ⟨m, e1, e2, ?_⟩
       intro hh
-      rw [newKeyWith_hung, srcPhase_hung]; exact (hlk hh).2
+      rw [newKeyWith_hung, srcPhase_hung]; exact (hlk2 hh).2
     · -- the record is still there and already write-locked by this call: reused
       have hne0 : DsList.llen l' ≠ 0 := fun z => hr (hz.mp z)
       obtain ⟨m4, g1, g2, g3, g4⟩ :=
-        srcPhase_nonempty' s1 k l' { msrc with count := msrc.count + 1 } now hm1 hne0
+        srcPhase_nonempty' s2 k l' { msrc with count := msrc.count + 1 + 1 } now hm2 hne0
       refine ⟨_, rfl, l', hwf', hitems', ?_⟩
       rw [writeKey_hot_eq _ k now _ m4 (.list l') g1 (g3.trans hok) (g4.trans hexp) g2]
       refine ⟨_, putMeta_self _ _ _, g2, ?_⟩
       intro hh
-      show (lockW (srcPhase s1 k l') k).hung = s.hung
-      rw [lockW_reuse _ k (by rw [srcPhase_held_nonempty s1 k l' hne0, (hlk hh).1]; simp),
+      show (lockW (srcPhase s2 k l') k).hung = s.hung
+      rw [lockW_reuse _ k (by rw [srcPhase_held_nonempty s2 k l' hne0, (hlk2 hh).1]; simp),
         srcPhase_hung]
-      exact (hlk hh).2
+      exact (hlk2 hh).2
   rw [hs5]
   have ha5 : Api.asList s5 k = some d := by simp [Api.asList, valOf, hm5, hv5]
   rw [ha5]
@@ -629,28 +773,6 @@ theorem api_rotate_same (left : Bool) (s : MState) (k : Bytes) (l : LList) (now 
 
 /-! ### source missing / dead / empty: nil reply -/
 
-/-- `writeKey` with a nil constructor on a key that is not indexed -/
-theorem writeKey_absent (s : MState) (now : Int) (k : Bytes) (h : getMeta s k = none) :
-    writeKey s now k none = (s, false) := by
-  unfold writeKey; rw [h]
-
-/-- `writeKey` with a nil constructor on a record that is not ok or whose deadline has passed:
-    locked, access counter bumped, reported as missing -/
-theorem writeKey_dead (s : MState) (now : Int) (k : Bytes) (m : Meta) (hm : getMeta s k = some m)
-    (hd : m.isOk = false ∨ m.expired now = true) :
-    writeKey s now k none = (putMeta (lockW s k) k { m with count := m.count + 1 }, false) := by
-  unfold writeKey
-  rw [hm]
-  have e1 : Meta.isOk { m with count := m.count + 1 } = m.isOk := rfl
-  have e2 : Meta.expired { m with count := m.count + 1 } now = m.expired now := rfl
-  simp only [e1, e2]
-  cases hok : m.isOk with
-  | false => simp
-  | true =>
-    rcases hd with hd | hd
-    · rw [hok] at hd; cases hd
-    · simp [hd]
-
 theorem api_rotate_absent (left : Bool) (s : MState) (now : Int) (src dst : Bytes)
     (h : getMeta s src = none) : Api.rotate left s now src dst = (s, .bytes none) := by
   unfold Api.rotate
@@ -663,21 +785,159 @@ theorem api_rotate_dead (left : Bool) (s : MState) (now : Int) (src dst : Bytes)
   unfold Api.rotate
   simp only [writeKey_dead s now src m hm hd, Bool.not_false, if_true]
 
-/-- a (hot, indexed) list without elements as the source: nil, and only the lookup happened -/
+/-! ### the type check of the destination
+
+  After the source list has been obtained, and before anything is popped, `rotate` looks `dst` up
+  with a nil constructor and fails when the lookup reports a live record that is not a list. -/
+
+/-- destinations that pass the check in state `s`: the source itself, a key that is not indexed, a
+    record that is not ok or past its deadline (both reported as missing), or a hot list -/
+def DstPasses (s : MState) (src dst : Bytes) (now : Int) : Prop :=
+  dst = src ∨ getMeta s dst = none ∨
+  (∃ md, getMeta s dst = some md ∧ (md.isOk = false ∨ md.expired now = true)) ∨
+  (∃ md d, getMeta s dst = some md ∧ md.isOk = true ∧ md.expired now = false ∧
+    md.value = some (.list d))
+
+/-- a destination that fails it: an ok, unexpired, hot record whose value `v` is not a list -/
+def DstWrongType (s : MState) (dst : Bytes) (v : Val) (now : Int) : Prop :=
+  (∀ d, v ≠ .list d) ∧
+  ∃ md, getMeta s dst = some md ∧ md.isOk = true ∧ md.expired now = false ∧ md.value = some v
+
+/-- the destination lookup after the source lookup `s1` of a hot source: a destination that passes
+    does not trip the check -/
+theorem dstPasses_check (s s1 : MState) (now : Int) (src dst : Bytes) (l : LList) (msrc : Meta)
+    (hms : getMeta s src = some msrc) (hok : msrc.isOk = true) (hexp : msrc.expired now = false)
+    (hval : msrc.value = some (.list l)) (hsorted : AList.Sorted s.index)
+    (hs1 : putMeta (lockW s src) src { msrc with count := msrc.count + 1 } = s1)
+    (hd : DstPasses s src dst now) :
+    ((writeKey s1 now dst none).2 && (Api.asList (writeKey s1 now dst none).1 dst).isNone) = false := by
+  have hm1 : getMeta s1 src = some { msrc with count := msrc.count + 1 } := by
+    rw [← hs1]; exact putMeta_self _ _ _
+  by_cases hsd : dst = src
+  · subst hsd
+    rw [writeKey_hot_eq s1 dst now none _ (.list l) hm1 hok hexp hval]
+    have : Holds (putMeta (lockW s1 dst) dst { msrc with count := msrc.count + 1 + 1 }) dst (.list l) := by
+      apply putMeta_holds
+      · rw [lockW_index, ← hs1]
+        exact (putMeta_holds (lockW s dst) dst { msrc with count := msrc.count + 1 } (.list l) (by rw [lockW_index]; exact hsorted)
+          (by rw [lockW_getMeta, hms]; rfl) hval).1
+      · rw [lockW_getMeta, hm1]; rfl
+      · exact hval
+    show (true && (Api.asList _ dst).isNone) = false
+    rw [asList_holds _ dst l this]; rfl
+  · have hd1 : getMeta s1 dst = getMeta s dst := by
+      rw [← hs1, putMeta_other _ _ _ _ (Ne.symm hsd), lockW_getMeta]
+    rcases hd with h | h | ⟨md, hmd, h⟩ | ⟨md, d, hmd, hdok, hdexp, hdval⟩
+    · exact absurd h hsd
+    · rw [writeKey_absent s1 now dst (by rw [hd1]; exact h)]; rfl
+    · rw [writeKey_dead s1 now dst md (by rw [hd1]; exact hmd) h]; rfl
+    · rw [writeKey_hot_eq s1 dst now none md (.list d) (by rw [hd1]; exact hmd) hdok hdexp hdval]
+      simp [Api.asList, valOf, putMeta_self, hdval]
+
+/-- a (hot, indexed) list without elements as the source: the value of `src` stays, only the two
+    lookups happened; the reply is nil for every destination that passes the type check (and the
+    command fails for the others, see `api_rotate_wrong_type`) -/
 theorem api_rotate_empty (left : Bool) (s : MState) (now : Int) (src dst : Bytes) (l : LList)
     (hsrc : HotList s src l now) (he : l.items = []) :
-    (Api.rotate left s now src dst).2 = .bytes none ∧
-    valOf (Api.rotate left s now src dst).1 src = some (.list l) := by
-  obtain ⟨s1, hw, hh⟩ := writeKey_hot s src l now hsrc
+    ((Api.rotate left s now src dst).2 = .bytes none ∨ (Api.rotate left s now src dst).2 = .panic) ∧
+    valOf (Api.rotate left s now src dst).1 src = some (.list l) ∧
+    (DstPasses s src dst now → (Api.rotate left s now src dst).2 = .bytes none) := by
+  obtain ⟨hsorted, hwf, msrc, hms, hok, hexp, hval⟩ := hsrc
+  have hw := writeKey_hot_eq s src now none msrc (.list l) hms hok hexp hval
+  have hpass := fun s1 hs1 => dstPasses_check s s1 now src dst l msrc hms hok hexp hval hsorted hs1
+  generalize hs1 : putMeta (lockW s src) src { msrc with count := msrc.count + 1 } = s1 at hw
+  replace hpass := hpass s1 hs1
+  have hm1 : getMeta s1 src = some { msrc with count := msrc.count + 1 } := by
+    rw [← hs1]; exact putMeta_self _ _ _
+  have hh1 : Holds s1 src (.list l) := by
+    rw [← hs1]
+    apply putMeta_holds
+    · rw [lockW_index]; exact hsorted
+    · rw [lockW_getMeta, hms]; rfl
+    · exact hval
+  have hv2 : valOf (writeKey s1 now dst none).1 src = some (.list l) := by
+    by_cases hsd : dst = src
+    · subst hsd
+      rw [writeKey_hot_eq s1 dst now none _ (.list l) hm1 hok hexp hval]
+      unfold valOf; rw [putMeta_self]; exact hval
+    · unfold valOf; rw [writeKey_none_other s1 now dst src hsd, hm1]; exact hval
   have hp : (if left then DsList.lpop l 1 else DsList.rpop l 1) = (l, none) := by
     cases left
     · simp only [Bool.false_eq_true, if_false]
       exact ((rotate_right l DsList.empty).2.1 he).1
     · simp only [if_true]
       exact ((rotate_left l DsList.empty).2.1 he).1
-  unfold Api.rotate
-  simp only [hw, asList_holds s1 src l hh, hp, Bool.not_true, Bool.false_eq_true, if_false]
-  exact ⟨trivial, valOf_holds s1 src _ hh⟩
+  cases hc : ((writeKey s1 now dst none).2 && (Api.asList (writeKey s1 now dst none).1 dst).isNone) with
+  | false =>
+    rw [rotate_nil left s s1 (writeKey s1 now dst none).1 (writeKey s1 now dst none).2 now src dst l l
+      hw (asList_holds s1 src l hh1) rfl hc hp]
+    exact ⟨Or.inl rfl, hv2, fun _ => rfl⟩
+  | true =>
+    rw [Bool.and_eq_true, Option.isNone_iff_eq_none] at hc
+    have hw2 : writeKey s1 now dst none = ((writeKey s1 now dst none).1, true) := by
+      rw [← hc.1]
+    rw [rotate_panic left s s1 (writeKey s1 now dst none).1 now src dst l
+      hw (asList_holds s1 src l hh1) hw2 hc.2]
+    refine ⟨Or.inr rfl, hv2, fun hd => ?_⟩
+    have := hpass hd
+    rw [hc.1, hc.2] at this
+    cases this
+
+/-- the destination is a live record of another type: the command fails before anything is popped.
+    The source keeps its list (whatever its elements), the destination keeps its value; the two
+    records only have their access counters bumped, no other record and no backend entry changes -/
+theorem api_rotate_wrong_type (left : Bool) (s : MState) (now : Int) (src dst : Bytes) (l : LList)
+    (v : Val) (hsrc : HotList s src l now) (hd : DstWrongType s dst v now) :
+    (Api.rotate left s now src dst).2 = .panic ∧
+    valOf (Api.rotate left s now src dst).1 src = some (.list l) ∧
+    valOf (Api.rotate left s now src dst).1 dst = some v ∧
+    (∀ k, getMeta (Api.rotate left s now src dst).1 k =
+      if k = src ∨ k = dst then (getMeta s k).map (fun m => { m with count := m.count + 1 })
+      else getMeta s k) ∧
+    (Api.rotate left s now src dst).1.disk = s.disk := by
+  obtain ⟨hsorted, hwf, msrc, hms, hok, hexp, hval⟩ := hsrc
+  obtain ⟨hnl, md, hmd, hdok, hdexp, hdval⟩ := hd
+  have hne : src ≠ dst := by
+    intro e; subst e
+    rw [hms] at hmd; cases hmd
+    rw [hval] at hdval; cases hdval
+    exact hnl l rfl
+  have hw := writeKey_hot_eq s src now none msrc (.list l) hms hok hexp hval
+  have hm1 : getMeta (putMeta (lockW s src) src { msrc with count := msrc.count + 1 }) src =
+      some { msrc with count := msrc.count + 1 } := putMeta_self _ _ _
+  have hh1 : Holds (putMeta (lockW s src) src { msrc with count := msrc.count + 1 }) src (.list l) := by
+    apply putMeta_holds
+    · rw [lockW_index]; exact hsorted
+    · rw [lockW_getMeta, hms]; rfl
+    · exact hval
+  have hd1 : getMeta (putMeta (lockW s src) src { msrc with count := msrc.count + 1 }) dst = some md := by
+    rw [putMeta_other _ _ _ _ hne, lockW_getMeta]; exact hmd
+  have hw2 := writeKey_hot_eq _ dst now none md v hd1 hdok hdexp hdval
+  have hn : Api.asList (putMeta (lockW (putMeta (lockW s src) src { msrc with count := msrc.count + 1 }) dst)
+      dst { md with count := md.count + 1 }) dst = none := by
+    unfold Api.asList valOf
+    rw [putMeta_self]
+    show (match md.value with | some (.list v) => some v | _ => none) = none
+    rw [hdval]
+    cases v <;> first | rfl | exact absurd rfl (hnl _)
+  rw [rotate_panic left s _ _ now src dst l hw (asList_holds _ src l hh1) hw2 hn]
+  refine ⟨rfl, ?_, ?_, ?_, ?_⟩
+  · show valOf (putMeta _ dst _) src = _
+    unfold valOf; rw [putMeta_other _ _ _ _ (Ne.symm hne), lockW_getMeta, hm1]; exact hval
+  · show valOf (putMeta _ dst _) dst = _
+    unfold valOf; rw [putMeta_self]; exact hdval
+  · intro k
+    show getMeta (putMeta _ dst _) k = _
+    by_cases hk2 : k = dst
+    · subst hk2
+      rw [putMeta_self, if_pos (Or.inr rfl), hmd]; rfl
+    · rw [putMeta_other _ _ _ _ (Ne.symm hk2), lockW_getMeta]
+      by_cases hk1 : k = src
+      · subst hk1
+        rw [putMeta_self, if_pos (Or.inl rfl), hms]; rfl
+      · rw [putMeta_other _ _ _ _ (Ne.symm hk1), lockW_getMeta, if_neg (by simp [hk1, hk2])]
+  · show (lockW _ dst).disk = s.disk
+    rw [lockW_disk]; exact lockW_disk s src
 
 /-- LPUSH / RPUSH on a key that is not indexed: the list is created -/
 theorem api_push_create (left : Bool) (s : MState) (k : Bytes) (now : Int) (vs : List Bytes)
